@@ -88,6 +88,9 @@ async fn recv_calls(sock: &mut Sock, n: usize) -> (Vec<Frames>, Vec<String>, boo
 
 async fn post_handshake(ctx: &mut Ctx, ty: &str, cut: &str, fault: &str, order: &str, nlive: usize, case: &Value) {
     let sig = |k: &str| format!("C16/{k}/{ty}");
+    // "talk": a live peer has a message waiting when the socket comes to look at the dying
+    // connection (both are served by the same receive call)
+    let talk = case["talk"].as_bool().unwrap_or(false);
     let sock = Sock::new(ty, None);
     // the dying peer is attached first so that rotation reaches it first
     let dead = match Peer::attach(&sock, peer_type_for(ty), Some(b"dead-peer")).await {
@@ -137,6 +140,13 @@ async fn post_handshake(ctx: &mut Ctx, ty: &str, cut: &str, fault: &str, order: 
         }
         sim::settle().await;
     }
+    if talk && nlive >= 1 && e.sock.can_recv() && ty != "REQ" {
+        // the live peer was served more recently than the dying one: when both are ready
+        // again, the queue looks at the dying connection first
+        e.live[0].send(&wire_payload(ty, 41, if matches!(ty, "PUB" | "XPUB") { 1 } else { 0 }));
+        let _ = recv_now(&mut e.sock).await;
+        sim::settle().await;
+    }
     let mut req_outstanding = false;
     if ty == "REQ" && order == "read-first" {
         // the request whose reply will be cut
@@ -170,6 +180,11 @@ async fn post_handshake(ctx: &mut Ctx, ty: &str, cut: &str, fault: &str, order: 
             e.dead.conn.feed(&rc::command(b"BOGUS", b"\x00\x01\x02"));
             e.dead.conn.feed(&[0x04, 0x00, 0xFF, 0xFF]);
         }
+    }
+    let talking = talk && nlive >= 1 && e.sock.can_recv() && ty != "REQ";
+    if talking {
+        e.live[0].send(&wire_payload(ty, 41, 2));
+        ctx.count("live_peer_talking_when_the_end_is_noticed");
     }
     ctx.count(&format!("fault/{fault}"));
     ctx.count(&format!("cut/{cut}"));
@@ -252,7 +267,7 @@ async fn post_handshake(ctx: &mut Ctx, ty: &str, cut: &str, fault: &str, order: 
     } else {
         sim::settle().await;
     }
-    let expected_oks = if complete_second && e.sock.can_recv() && ty != "REQ" { 1 } else if complete_second && req_outstanding { 1 } else { 0 };
+    let expected_oks = (if complete_second && e.sock.can_recv() && ty != "REQ" { 1 } else if complete_second && req_outstanding { 1 } else { 0 }) + talking as usize;
     if recv_oks.len() > expected_oks {
         ctx.violation_with(
             &sig("message-from-a-dead-or-cut-stream"),
@@ -516,6 +531,24 @@ async fn replaced(ctx: &mut Ctx, ty: &str, old_state: &str, nlive: usize, case: 
     }
     match old_state {
         "ended-unnoticed" | "parked" => old.conn.close_full(EndKind::Eof),
+        // the old connection ended (inside a frame: an error; or cleanly) and the socket has
+        // dealt with it before the peer comes back
+        "error-noticed" | "eof-noticed" | "reset-noticed" => {
+            if old_state == "error-noticed" {
+                old.conn.feed(&[0x01, 0x09, 0xAA, 0xBB]);
+            }
+            old.conn.close_full(if old_state == "reset-noticed" { EndKind::Reset } else { EndKind::Eof });
+            if sock.can_recv() && ty != "REQ" {
+                for _ in 0..3 {
+                    if recv_now(&mut sock).await.is_none() {
+                        break;
+                    }
+                }
+            } else {
+                sim::settle().await;
+            }
+            ctx.count("reconnects_after_the_old_end_was_dealt_with");
+        }
         _ => {} // "half-open": the peer is gone but nothing tells the socket
     }
     let newp = match Peer::attach(&sock, peer_type_for(ty), Some(b"same-identity")).await {
@@ -804,7 +837,7 @@ impl Prop for C16 {
                     }
                 }
             }
-            for old_state in ["ended-unnoticed", "parked", "half-open"] {
+            for old_state in ["ended-unnoticed", "parked", "half-open", "error-noticed", "eof-noticed", "reset-noticed"] {
                 for nlive in [0usize, 2] {
                     v.push(json!({"kind": "replaced", "ty": ty, "old": old_state, "live": nlive}));
                 }
@@ -831,11 +864,16 @@ impl Prop for C16 {
                     {
                         continue;
                     }
-                    let one = json!({"kind": "post", "ty": ty, "cut": cut, "fault": s(case, "fault"), "order": s(case, "order"), "live": u(case, "live")});
-                    ctx.eval(hash_str(&one.to_string()), true);
-                    ctx.count(&format!("cases/{ty}"));
-                    ctx.sample(&format!("post_{ty}"), || one.clone());
-                    sim::run(post_handshake(ctx, &ty, cut, s(case, "fault"), s(case, "order"), u(case, "live") as usize, &one));
+                    for talk in [false, true] {
+                        if talk && (u(case, "live") == 0 || s(case, "order") != "read-first") {
+                            continue;
+                        }
+                        let one = json!({"kind": "post", "ty": ty, "cut": cut, "fault": s(case, "fault"), "order": s(case, "order"), "live": u(case, "live"), "talk": talk});
+                        ctx.eval(hash_str(&one.to_string()), true);
+                        ctx.count(&format!("cases/{ty}"));
+                        ctx.sample(&format!("post_{ty}"), || one.clone());
+                        sim::run(post_handshake(ctx, &ty, cut, s(case, "fault"), s(case, "order"), u(case, "live") as usize, &one));
+                    }
                 }
             }
             "post" => {
@@ -897,6 +935,7 @@ impl Prop for C16 {
             ("fault/protocol-error", 200),
             ("order/read-first", 400),
             ("order/write-first", 400),
+            ("live_peer_talking_when_the_end_is_noticed", 200),
             ("end_observed", 700),
             ("observed_by_write_error", 100),
             ("errors_per_event/1", 100),
